@@ -120,10 +120,26 @@ def main():
         w = npr.dirichlet(np.ones(k)) * total
         w = [float(x) for x in w]
         res.count(("prob", n, k, total), bucket="ProbabilisticNoise")
+        ul = [u.tolist() for u in us]
+        import copy
+        ul0, w0 = copy.deepcopy(ul), list(w)
         try:
-            inst = N.ProbabilisticNoise([u.tolist() for u in us], w, qubit_indices=list(range(n)))
+            inst = N.ProbabilisticNoise(ul, w, qubit_indices=list(range(n)))
         except ValueError as ex:
             res.fail("corr:ProbabilisticNoise:valid_rejected", f"valid mixture rejected: {ex}", {"n": n, "weights": w})
+            continue
+        # the caller's own lists are arguments, not scratch space: unchanged afterwards, and usable for the next call
+        if ul != ul0 or w != w0:
+            res.fail("corr:ProbabilisticNoise:arguments_mutated", f"the factory changed its arguments: {len(ul)} matrices / "
+                     f"{len(w)} weights after the call, {len(ul0)} / {len(w0)} before", {"n": n, "weights": w0})
+            continue
+        try:
+            again = N.ProbabilisticNoise(ul, w, qubit_indices=list(range(n)))
+            if list(again.prob_list) != list(inst.prob_list):
+                raise ValueError("different mixture")
+        except ValueError as ex:
+            res.fail("corr:ProbabilisticNoise:valid_rejected", f"the same valid arguments are rejected on a second call: {ex}",
+                     {"n": n, "weights": w0})
             continue
         pl = list(inst.prob_list)
         ms = [np.array(m, dtype=float) for m in inst.gate_matrices]
@@ -133,6 +149,26 @@ def main():
         if not ok:
             res.fail("corr:ProbabilisticNoise:mixture", f"stored mixture is not a probability vector over 2^n-dimensional "
                      f"unitaries: weights {pl}, shapes {sorted(dims)}", {"n": n, "weights": w})
+    # matrices with complex entries: the instruction stores real numbers, so such input must be rejected - never stored with
+    # the imaginary parts dropped (Pauli Y as a numpy array is the natural example)
+    Y = np.array([[0, -1j], [1j, 0]])
+    cplx = [("ProbabilisticNoise", lambda m: N.ProbabilisticNoise([m], [0.3]), Y, "gate_matrices"),
+            ("ProbabilisticNoise", lambda m: N.ProbabilisticNoise([m], [0.3]), np.kron(Y, np.eye(2)), "gate_matrices"),
+            ("KrausNoise", lambda m: N.KrausNoise([np.sqrt(0.7) * np.eye(2), np.sqrt(0.3) * m]), Y, "kraus_operators"),
+            ("KrausNoise", lambda m: N.KrausNoise([m]), np.diag([1, 1j]), "kraus_operators")]
+    import warnings
+    for name, mk, m, attr in cplx:
+        res.count((name, "complex", str(m.tolist())), bucket=name + ":complex")
+        try:
+            with warnings.catch_warnings():
+                warnings.simplefilter("ignore")
+                inst = mk(m)
+        except Exception:  # noqa: BLE001 - rejected
+            continue
+        stored = [np.array(x, dtype=float) for x in getattr(inst, attr)]
+        if not any(np.allclose(x, m) or np.allclose(x, np.sqrt(0.3) * m) for x in stored):
+            res.fail(f"sweep:{name}:complex_matrix_corrupted", f"a matrix with complex entries was accepted and stored without its "
+                     f"imaginary parts: {[x.tolist() for x in stored]}", {"matrix": str(m.tolist())})
     res.emit()
 
 
